@@ -266,3 +266,39 @@ Proof.
     + unfold ZoomFile.manual_u32. cbn [o_manual fx_o]. repeat constructor; unfold U32; lia.
     + assert (Es : zoom_sizes_single fx_o = [4; 10]) by (vm_compute; reflexivity). rewrite Es. repeat constructor; unfold U32; lia.
 Qed.
+
+(* ================= the IEEE run IS the exact run below 2^53 (Proofs/FloatExactBed.v) =================
+   Depths are whole numbers; every statistic of a record is a whole number.  As long as the sum of squared
+   depths of the chromosome is below 2^53, no binary64 operation of the tiling rounds: the IEEE instance of
+   the model (the one compared bit for bit with the implementation) returns exactly the records of the exact
+   instance, so C08_ordered_disjoint .. C08_stats hold for it verbatim.  (The f32 depth counter of the code
+   is a natural number in the model: fewer than 2^24 entries over one base, see the notes.) *)
+From BT Require Proofs.BedIeee Proofs.FloatExactBed.
+
+Theorem C08_records_ieee : forall U ips size chrom es, 1 <= size -> BedSummary.valid_chrom U es ->
+  st_sumsq (depth es) (span 0 U) < BedIeee.P53 ->
+  bb_zoom_records ieee ips size chrom es = bb_zoom_records exact ips size chrom es.
+Proof. exact FloatExactBed.bb_zoom_records_ieee. Qed.
+Print Assumptions C08_records_ieee.
+
+(* C08_stats (and order, shape, partition) for the IEEE instance *)
+Theorem C08_stats_ieee : forall U ips size chrom es secs, 1 <= size -> valid_zoom_chrom U es ->
+  st_sumsq (depth es) (span 0 U) < BedIeee.P53 ->
+  bb_zoom_records ieee ips size chrom es = Ok secs ->
+  bb_zoom_records exact ips size chrom es = Ok secs /\
+  let R := concat secs in
+  recs_sorted 0 R /\ Forall (zshape size chrom) R /\ Forall (zstats_spec (depth es)) R /\
+  (forall x, 0 < depth es x -> covered_by R x).
+Proof. exact FloatExactBed.zoom_records_spec_ieee. Qed.
+Print Assumptions C08_stats_ieee.
+
+Example C08_example_ieee :
+  let es := [ {| e_start := 0; e_end := 10; e_rest := [] |}; {| e_start := 0; e_end := 10; e_rest := [] |};
+              {| e_start := 5; e_end := 15; e_rest := [] |}; {| e_start := 20; e_end := 22; e_rest := [] |} ] in
+  valid_zoom_chrom 30 es /\ st_sumsq (depth es) (span 0 30) < BedIeee.P53 /\
+  exists secs, bb_zoom_records ieee 2 4 0 es = Ok secs /\ length (concat secs) = 5%nat.
+Proof.
+  cbv zeta. split; [|split; [vm_compute; reflexivity|]].
+  - unfold valid_zoom_chrom, U32_MAX, entry_ok. repeat split; repeat constructor; cbn; lia.
+  - eexists. split; [vm_compute; reflexivity|]. vm_compute. reflexivity.
+Qed.
